@@ -15,7 +15,8 @@ ID = "C06"
 RULE = ("type forests (every forest with <= N types and depth <= 4 exhaustively; random forests up to 8 types) each "
         "written under permutations and regroupings of its declaration lines: children of one parent merged or "
         "split, roots as trailing bare names / as 'r - object' / only mentioned as parents, children before "
-        "parents.  Non-trivial = some child is declared before its parent's own declaration, or depth >= 3.  "
+        "parents; for every forest: is_sub_type on all pairs, constants, unary and binary (also repeated-object) problem "
+        "facts, fluents, single and paired forall effects over every type.  Non-trivial = some child is declared before its parent's own declaration, or depth >= 3.  "
         "Distinct by the declaration text.")
 ASSUMPTIONS = ["type names are distinct from 'object'; a bare-name group can only be the last group of :types"]
 
@@ -42,16 +43,27 @@ def child_before_parent(decl):
     return False
 
 
+def nxt(names, t):
+    """The type after t in declaration order (cyclic): the partner type of the binary predicates / double sweeps."""
+    return names[(names.index(t) + 1) % len(names)]
+
+
 def build_domain(decl):
     pairs = logical(decl)
     T = pddl.Types(pairs)
     names = [n for n in T.names() if n != "object"]
     dom = {"name": "d", "typed": True, "types": pairs, "type_decl": decl,
            "constants": [[f"c-{t}", t] for t in names],
-           "predicates": [[f"is-{t}", [["?a", t]]] for t in names] + [["mark", [["?a", "object"]]], ["isobj", [["?a", "object"]]]],
+           "predicates": [[f"is-{t}", [["?a", t]]] for t in names] + [["mark", [["?a", "object"]]], ["isobj", [["?a", "object"]]],
+                                                                     ["mark2", [["?a", "object"]]]] +
+                         [[f"two-{t}", [["?a", t], ["?b", nxt(names, t)]]] for t in names],
            "functions": [[f"val-{t}", [["?a", t]]] for t in names],
            "actions": [{"name": f"sweep-{t}", "params": [], "pre": ["and"],
-                        "eff": ["and", ["forall", ["?z", "-", t], ["when", ["and"], ["mark", "?z"]]]]} for t in names + ["object"]]}
+                        "eff": ["and", ["forall", ["?z", "-", t], ["when", ["and"], ["mark", "?z"]]]]} for t in names + ["object"]] +
+                      # two quantified effects over different types in one action
+                      [{"name": f"sweep2-{t}", "params": [], "pre": ["and"],
+                        "eff": ["and", ["forall", ["?z", "-", t], ["when", ["and"], ["mark", "?z"]]],
+                                ["forall", ["?w", "-", nxt(names, t)], ["when", ["and"], ["mark2", "?w"]]]]} for t in names]}
     objects = [[f"o-{t}", t] for t in names] + [["o-object", "object"]]
     return dom, objects, T, names
 
@@ -144,6 +156,21 @@ def check_case(case):
                 res.bad("C06/problem-fluent/" + ("rejected-conforming" if exp else "accepted-non-conforming"),
                         {**info, "object": [on, ot], "required": req, "error": None if okp else repr(prob)})
                 break
+    # (3b) binary facts whose positions require different types, with distinct and with repeated objects
+    allobjs = objects + dom["constants"]
+    for req in names:
+        req2 = nxt(names, req)
+        for (on, ot) in allobjs:
+            for (on2, ot2) in [(on, ot)] + [o for o in allobjs if T.is_sub(o[1], req2)][:1] + [o for o in allobjs if not T.is_sub(o[1], req2)][:1]:
+                st = (frozenset({(f"two-{req}", on, on2)}), {})
+                okp, prob = lib_call(parse_problem_text, sexpr.flat(pddl.problem_tree("pr", "d", objs_txt, st)), domain)
+                exp = T.is_sub(ot, req) and T.is_sub(ot2, req2)
+                n_eval += 1
+                if okp != exp:
+                    res.bad("C06/problem-fact-binary/" + ("rejected-conforming" if exp else "accepted-non-conforming"),
+                            {**info, "fact": [f"two-{req}", on, on2], "types": [ot, ot2], "required": [req, req2],
+                             "error": None if okp else repr(prob)})
+                    return res
     # (4) forall effects reach exactly the objects below the quantified type
     from pddl_plus_parser.models import Operator, State
     from collections import defaultdict
@@ -160,6 +187,20 @@ def check_case(case):
             break
         if set(got[0]) != exp:
             res.bad("C06/forall-effect/range", {**info, "quantified": t, "missing": sorted(exp - set(got[0])), "extra": sorted(set(got[0]) - exp)})
+            break
+    for t in names:
+        def run2():
+            op = Operator(domain.actions[f"sweep2-{t}"], domain, [], objs)
+            return read_lib_state(op.apply(State(defaultdict(set), {}, is_init=True)))
+        oka, got = lib_call(run2)
+        n_eval += 1
+        exp = {("mark", o) for o in world.of_type(t)} | {("mark2", o) for o in world.of_type(nxt(names, t))}
+        if not oka:
+            res.bad(f"C06/forall-effect-pair/exception:{got.key}", {**info, "quantified": [t, nxt(names, t)], "error": repr(got)})
+            break
+        if set(got[0]) != exp:
+            res.bad("C06/forall-effect-pair/range", {**info, "quantified": [t, nxt(names, t)], "missing": sorted(exp - set(got[0])),
+                                                     "extra": sorted(set(got[0]) - exp)})
             break
     res.evals = n_eval + len(keys) ** 2
     return res
